@@ -17,11 +17,11 @@ ASSUMPTIONS = [
     "recursively and in order",
     "comparing a node with itself is outside the statement ('two distinct trees')",
 ]
-REQUIRED = ["pairs_with_identical_ids", "pairs_equal", "pairs_different", "difference_at_child_position_ge1", "difference_at_depth_ge2", "symmetric_checked", "subtree_pairs", "pairs_compared_before_the_edit"]
+REQUIRED = ["pairs_with_identical_ids", "pairs_equal", "pairs_different", "difference_at_child_position_ge1", "difference_at_depth_ge2", "symmetric_checked", "subtree_pairs", "pairs_compared_before_the_edit", "inherited_map_pairs"]
 EXHAUSTIVE = {"quick": False, "thorough": False}
 
 KINDS = ("attr_reorder", "extras_reorder", "ns_reorder", "attr_type", "name", "content", "content_none", "tail", "prefix", "attr_add", "attr_del", "attr_val", "extras_add", "extras_val",
-         "ns_add", "ns_del", "ns_val", "child_append", "child_insert0", "child_remove_last", "child_remove_first", "child_swap", "reparent_up", "reparent_down", "attr_inplace", "extras_inplace", "ns_inplace")
+         "ns_add", "ns_del", "ns_val", "child_append", "child_insert0", "child_remove_last", "child_remove_first", "child_swap", "reparent_up", "reparent_down", "attr_inplace", "extras_inplace", "ns_inplace", "content_recomposed", "tail_recomposed")
 
 
 def plan(tier, seed):
@@ -141,6 +141,21 @@ def apply_difference(rng, n, kind):
         if not n.children:
             return False
         n.remove_child(n.children[0])
+    elif kind in ("content_recomposed", "tail_recomposed"):
+        # canonically equivalent, differently spelt (precomposed against base letter + combining mark): another string
+        import unicodedata
+        cur = n.content if kind == "content_recomposed" else n.tail
+        if not cur:
+            return False
+        other = unicodedata.normalize("NFD", cur)
+        if other == cur:
+            other = unicodedata.normalize("NFC", cur)
+        if other == cur:
+            return False
+        if kind == "content_recomposed":
+            n.content = other
+        else:
+            n.tail = other
     elif kind in ("attr_inplace", "extras_inplace", "ns_inplace"):
         # the dictionaries are public and mutable: an entry written into them directly, not through a setter or add_* method
         d = {"attr_inplace": n.attributes, "extras_inplace": n.extras, "ns_inplace": n.nsmap}[kind]
@@ -262,8 +277,37 @@ def sweep(ctx, t, exhaustive):
             emlkit.discard(c)
 
 
+def inherited_map_pairs(ctx):
+    """Inner nodes of two documents that differ only in a namespace URI declared on the root (EML 2.1.1 against 2.2.0): each node
+    uses its parent's map object, as imported trees and trees fixed up with fix_nsmap do; the two inner nodes are different."""
+    from metapype.model import metapype_io
+    docs = []
+    for uri in ("eml://ecoinformatics.org/eml-2.1.1", "https://eml.ecoinformatics.org/eml-2.2.0"):
+        docs.append(metapype_io.from_xml(f'<eml:eml xmlns:eml="{uri}" packageId="p" system="s"><dataset><title>t</title><creator><individualName>'
+                                         f'<surName>s</surName></individualName></creator></dataset></eml:eml>'))
+    a, b = docs
+    pairs = [(a, b, "roots"), (a.children[0], b.children[0], "datasets"), (a.children[0].children[1], b.children[0].children[1], "creators")]
+    same = metapype_io.from_xml('<eml:eml xmlns:eml="https://eml.ecoinformatics.org/eml-2.2.0" packageId="p" system="s"><dataset><title>t</title><creator>'
+                                '<individualName><surName>s</surName></individualName></creator></dataset></eml:eml>')
+    pairs.append((b.children[0], same.children[0], "datasets of two imports of the same text"))
+    built = []
+    for uri in ("u1", "u2"):
+        r = Node("r")
+        x = Node("x")
+        r.add_child(x)
+        x.add_child(Node("y", content="c"))
+        r.add_namespace("p", uri)            # declared on the finished root: the whole tree uses one map object
+        built.append(r)
+    pairs.append((built[0].children[0], built[1].children[0], "inner nodes of API-built trees"))
+    for x, y, what in pairs:
+        ask(ctx, x, y, lambda: {"inherited_maps": what}, "inherited-map-pair")
+        ctx.count("inherited_map_pairs")
+    emlkit.discard(a, b, same, *built)
+
+
 def run(ctx, params):
     rng = ctx.rng
+    inherited_map_pairs(ctx)
     prev = None
     for i in range(params["trees"]):
         size = rng.choice([1, 2, 3, 4, 6, 9, 12, 20, 45])
@@ -304,6 +348,11 @@ def run(ctx, params):
 
 
 def replay(ctx, witness):
+    if "inherited_maps" in witness:
+        inherited_map_pairs(ctx)
+        ctx.distinct(1)
+        ctx.distinct(2)
+        return
     t = snapshot.from_plain(Node, witness["tree"])
     if "other" in witness:
         o = snapshot.from_plain(Node, witness["other"])
